@@ -231,6 +231,31 @@ func c17CompactTable(c *Ctx) {
 }
 
 func c17Layout(c *Ctx) {
+	c17WalkLayout(c)
+	if c.Prop != "C17" {
+		return
+	}
+	// list entries are popped only through the message-level pops, which handle "one entry per line" and
+	// "several entries on one line" alike (structure shared with C02.5 / C13.4)
+	w := c.w
+	rule := "layout"
+	for _, sp := range []popSpec{viaPop, routePop} {
+		if fn := w.Fn(sp.PopFn); fn != nil {
+			if node := w.CG.Nodes[fn]; node != nil {
+				for _, e := range node.In {
+					cn := w.fname(e.Caller.Func)
+					if !w.isMain(e.Caller.Func) {
+						continue
+					}
+					c.check(cn == sp.Fn, rule, sp.PopFn+"<-"+cn, w.ipos(e.Site), "entry pop used by the message-level pop only", cn+" pops a list entry directly with "+sp.PopFn+" instead of "+sp.Fn+": when the entry is alone on its header line an empty header line is left behind, so behaviour depends on how the list is laid out")
+				}
+			}
+		}
+		checkPopOne(c, rule, sp)
+	}
+}
+
+func c17WalkLayout(c *Ctx) {
 	w := c.w
 	rule := "layout"
 	f := c.fn(rule, "(*Message).ForEachVia")
